@@ -3,3 +3,4 @@ INVARIANT Sane
 CHECK_DEADLOCK FALSE
 CONSTANTS
   MaxDamage = 2
+  MaxDamageParse = 2
